@@ -1,0 +1,17 @@
+//go:build verif
+
+// Machine-checked contracts for this package (comment-only; compiled only with
+// the build tag `verif`). Read by /verif/engine (govc); see /verif/DESIGN.md.
+package viewid
+//
+// ---- statement-tree walkers descend into every nested block -------------------------------
+// (type-derived: for the statement handled by one iteration every field of type
+// Block of every statement kind is passed to the recursive call; see ir/zz_verif_contracts.go)
+//
+//@ func (*analysisState).walkStatement
+//@   mode bv
+//@   tags C18
+//@   ghostcall walkBlock visitedBlock
+//@   traverse mark stmt ir.Block visitedBlock($)
+//@   except Kind.StmtSwitch.Cases
+//
